@@ -24,7 +24,7 @@ RULE = ("explicit-state search: states = contents of two real HDF5 files X, Y (c
         "foreign objects and attributes untouched; an operation on a missing source (no overwrite) touches nothing that existed. "
         "Non-trivial: a transition from a state holding >=1 collection. Distinct by construction (state dedup).")
 BOUNDS = {"quick": "depth 2 from the empty and the seeded initial state; depth 1 over a 5-path alphabet from the linked initial state (soft + hard link to a collection)",
-          "thorough": "depth 3 from the empty and seeded states (operations on a missing source up to depth 2), depth 2 from the linked state"}
+          "thorough": "depth 3 from the empty state (third step restricted to operations on file X, operations on a missing source up to depth 2), depth 2 from the seeded and the linked state"}
 ASSUMPTIONS = ["excluded from the alphabet (no defined meaning): mv / hard ln whose source is the root group, any operation whose destination "
                "lies inside the source's own subtree or is already occupied (except create and cp(overwrite)), links through links of another file",
                "two files with the same canonical model state have the same futures under every operation of the alphabet"]
@@ -74,12 +74,12 @@ OPS_L = all_ops(PATHS_L)     # alphabet of the 'linked' initial state (X: /a = D
 
 
 def units(tier):
-    depth = 3 if tier == "thorough" else 2
+    th = tier == "thorough"
     for init in ("empty", "seeded"):
         for k in range(len(OPS)):
-            yield {"init": init, "first": k, "depth": depth}
+            yield {"init": init, "first": k, "depth": 3 if (th and init == "empty") else 2}
     for k in range(len(OPS_L)):
-        yield {"init": "linked", "first": k, "depth": depth - 1}
+        yield {"init": "linked", "first": k, "depth": 2 if th else 1}
 
 
 def spell(path, k):
@@ -310,6 +310,8 @@ def run(unit, R, tier, only=None):
                 opset = [unit["first"]] if level == 1 else range(len(OPS))
                 for k in opset:
                     op = OPS[k]
+                    if level >= 3 and (op[1] != "X" or (op[0] not in ("create", "cp", "ln-ext") and op[3] != "X")):
+                        continue        # third step: operations whose source / target file is X (file Y only as a copy or link destination)
                     h2 = hist + [k]
                     if only is not None and only.get("history") is not None:
                         oh = only["history"]
